@@ -23,14 +23,25 @@ RULE = ("E1 strings: random patterns over the atoms {literal text incl. '/', '.'
         "a newline) with patterns generalised from existing paths; NamedGlob.glob() versus the model "
         "(regex model over all existing paths, glob model for the translated pattern, reference semantics), and "
         "glob.glob versus model/GlobSem.v. E1 updates: random extend/reduce/will_change sequences on the real "
-        "NamedGlob versus the model. A case is non-trivial when the pattern has a wildcard and (trees) at least "
+        "NamedGlob versus the model. E1 batch: random sequences of (during_build, DELETED|UPDATED|DELETED_PARENT, path) "
+        "items with table-driven change_is_relevant / relevant_paths_under through the real Watcher.record_change "
+        "versus model/NglobBatch.v fold_changes. O6/O8: a real tree, a real Workflow with registered patterns, named and "
+        "random operation traces (create, touch, unlink, mkdir, rmtree, move away, file<->directory), folded by the real "
+        "record_change and committed by the real process_nglob_changes, resp. applied offline and rescanned by the real "
+        "startup.rescan_nglobs, every persisted row versus a fresh glob(). A case is non-trivial when the pattern has a wildcard and (trees) at least "
         "one existing path is accepted or (strings) the pattern has two or more tokens; distinct by "
         "(kind, pattern, subs, input).")
 TRUSTED_BASE = [
     "Coq 8.16.1 kernel (vm_compute in Examples, refutation witnesses and the correspondence evaluation)",
     "Print Assumptions: Closed under the global context for every C17 theorem (no axioms)",
     "translator/gen_nglob.py (shape-matched constants of convert_nglob_to_regex, RE_WILD_PARTS, measured re.escape; "
-    "structural fingerprints of the remaining nglob functions and of the two callers)",
+    "structural fingerprints of convert_nglob_to_regex, iter_wildcard_names, has_anonymous_wildcards, "
+    "NamedGlob._default_*, NamedGlob.glob)",
+    "translator/gen_nglob_code.py and translator/gen_nglob_batch.py (statement-level translations; what they emit is "
+    "proved equal to the model in proofs/NglobCodeTie.v and proofs/NglobBatchTie.v) and the reading of the Python "
+    "builtins in model/NglobPy.v / model/NglobBatch.v (set.add, set.discard, dict operations)",
+    "harness/c17_batch.py: the queue items an operation on the tree produces are written down the way "
+    "AsyncInotifyWrapper.change_loop produces them (that translation is property C14)",
     "harness/p_c17.py (Gallina literal printers, generators, Python's re and glob modules as the executing "
     "substrate of the implementation)",
     "no extraction: the model is evaluated inside Coq by vm_compute",
@@ -42,8 +53,10 @@ ASSUMPTIONS = [
     "Python's re module implements backtracking semantics for the emitted fragment (validated by E1 against "
     "lib/Regex.v on every generated case); glob/fnmatch are those of CPython 3.12 (validated by E1 against "
     "model/GlobSem.v)",
-    "the added/deleted lists handed to will_change reflect the file-system change for every path the "
-    "pattern accepts (hypotheses of C17_update_equals_rescan; the watcher side is property C14)",
+    "the queue items of a watch phase mean for accepted paths what model/NglobBatch.v step_ok says (C14: inotify "
+    "to items); every accepted path passes change_is_relevant, relevant_paths_under yields the accepted paths "
+    "below a removed directory, a path pruned as UNCHANGED existed before (assumptions of "
+    "C17_watch_batch_update_equals_rescan; the first two are probed on the real Workflow by O7)",
     "character classes in the acceptance comparison have bodies made of single characters and ascending "
     "ranges (other bodies are compared as text only)",
 ]
